@@ -5,14 +5,15 @@ from hypothesis import strategies as st
 from hypothesis.stateful import RuleBasedStateMachine, initialize, rule
 
 from vlib.common import Sub, Violation, call, trip, same_multiset, O, G
-from checks.nnlib import pyrepseq, nn, related_queries, hashable_ok
+from checks.nnlib import pyrepseq, nn, related_queries, hashable_ok, CUSTOM, custom_neighbours_cross
 
 PROPERTY = "C03"
+QUICK_SCALE = 3
 RULE = ("function level: (reference, query) pairs from clonal families with overlapping content, duplicates on either "
         "side, sizes 1..40 x 1..40 incl. more queries than references, k=1..3, through symdel(seqs2=), "
         "nearest_neighbor(seqs2=), SymdelDB.lookup and LookupDB.lookup (k<=2); exhaustive: every string <=L over ACD as "
         "reference and as query list. History level: rule-based state machine building one SymdelDB and one LookupDB and "
-        "issuing up to 12 lookups. Oracle: brute-force (q, r, d) with own DP, multiset equality; after every lookup the "
+        "issuing up to 12 lookups (Levenshtein, Hamming and custom-distance lookups interleaved on the same object). Oracle: brute-force (q, r, d) with own DP, multiset equality; after every lookup the "
         "database's stored sequences and index dictionary must be unchanged and the answer must equal a fresh one-shot "
         "search. Non-trivial: some true hit has q == r numerically, or d = 0, or is an indel hit; for histories >= 3 "
         "lookups with >= 2 different query lists.")
@@ -135,19 +136,28 @@ def apply_op(state, op):
     s = state
     s.nlookups += 1
     s.qlists.add(tuple(queries))
+    mode = op.get("mode", "lev")
+    kw = {} if mode == "lev" else ({"custom_distance": "hamming"} if mode == "hamming" else
+                                   {"custom_distance": CUSTOM[mode], "max_custom_distance": float(op.get("maxc", "inf"))})
     if op["op"] == "symdel_lookup":
         k = s.k
-        got = trip(call("lookup", s.symdel.lookup, list(queries)))
-        fresh = trip(call("fresh", pyrepseq.symdel, list(s.refs), max_edits=k, seqs2=list(queries)))
+        got = trip(call("lookup", s.symdel.lookup, list(queries), **kw))
+        fresh = trip(call("fresh", pyrepseq.symdel, list(s.refs), max_edits=k, seqs2=list(queries), **kw))
         if (list(s.symdel.seqs), s.symdel.variant_dict) != s.snap_symdel:
             raise Violation("db-mutated", "SymdelDB state changed by a lookup")
     else:
         k = op["k"]
-        got = trip(call("lookup", s.hash.lookup, list(queries), max_edits=k))
-        fresh = trip(call("fresh", lambda: nn.LookupDB(list(s.refs)).lookup(list(queries), max_edits=k)))
+        got = trip(call("lookup", s.hash.lookup, list(queries), max_edits=k, **kw))
+        fresh = trip(call("fresh", lambda: nn.LookupDB(list(s.refs)).lookup(list(queries), max_edits=k, **kw)))
         if (list(s.hash.seqs), s.hash.seq_dict) != s.snap_hash:
             raise Violation("db-mutated", "LookupDB state changed by a lookup")
-    want = O.neighbours_cross(queries, s.refs, k, O.lev)
+    if mode == "lev":
+        want = O.neighbours_cross(queries, s.refs, k, O.lev)
+    elif mode == "hamming":
+        want = O.neighbours_cross(queries, s.refs, k, O.ham)
+    else:
+        want = [(a, b, int(d) if float(d) == int(d) else float(d))
+                for a, b, d in custom_neighbours_cross(queries, s.refs, k, mode, float(op.get("maxc", "inf")))]
     if any(q == r or d == 0 or len(queries[q]) != len(s.refs[r]) for q, r, d in want):
         s.nontrivial_hit = True
     same_multiset("history-vs-fresh", got, fresh, f"step {s.nlookups} {op['op']}")
@@ -194,6 +204,19 @@ def machine(tier, rec):
         def hash_lookup(self, data, k):
             q = data.draw(related_queries(self.state.refs, alpha, max_size=5, max_edits=2))
             op = {"op": "hash_lookup", "queries": [s[:6] for s in q], "k": k}
+            self.ops.append(op)
+            apply_op(self.state, op)
+
+        @rule(data=st.data(), mode=st.sampled_from(["hamming", "half", "double", "lenpen"]), maxc=st.sampled_from(["inf", "1", "2.5"]),
+              which=st.sampled_from(["symdel_lookup", "hash_lookup"]))
+        def mode_lookup(self, data, mode, maxc, which):
+            # the same database object answers Levenshtein, Hamming and custom-distance lookups in any order
+            q = data.draw(related_queries(self.state.refs, alpha, max_size=5, max_edits=2, hamming=(mode == "hamming")))
+            op = {"op": which, "queries": [s[:6] for s in q], "mode": mode}
+            if which == "hash_lookup":
+                op["k"] = 1
+            if mode != "hamming":
+                op["maxc"] = maxc
             self.ops.append(op)
             apply_op(self.state, op)
 
